@@ -1,5 +1,7 @@
 """Line-protocol client for the compiled Lean driver."""
 import json
+import sys
+sys.set_int_max_str_digits(0)
 import os
 import subprocess
 
